@@ -7,7 +7,10 @@ use boa_macros::{Finalize, Trace};
 
 use crate::{
     JsString,
-    object::shape::{Shape, WeakShape, slot::Slot},
+    object::shape::{
+        Shape, WeakShape,
+        slot::{Slot, SlotAttributes},
+    },
 };
 
 #[cfg(test)]
@@ -20,6 +23,9 @@ pub(crate) const PIC_CAPACITY: usize = 4;
 pub(crate) struct CacheEntry {
     /// A weak reference is kept to the shape to avoid the shape preventing deallocation.
     pub(crate) shape: WeakShape,
+    /// For a slot that lives in the prototype: the shape the prototype had when the entry was
+    /// created. The slot index is only meaningful for that layout of the prototype.
+    pub(crate) prototype_shape: Option<WeakShape>,
     #[unsafe_ignore_trace]
     pub(crate) slot: Slot,
 }
@@ -75,12 +81,26 @@ impl InlineCache {
             crate::verif::ic_stat(|s| s.fills += 1);
         }
 
+        // A prototype slot is described relative to the prototype's current layout.
+        let prototype_shape = if slot.attributes.contains(SlotAttributes::PROTOTYPE) {
+            let Some(prototype) = shape.prototype() else {
+                return;
+            };
+            let Ok(prototype) = prototype.try_borrow() else {
+                return;
+            };
+            Some(WeakShape::from(prototype.shape()))
+        } else {
+            None
+        };
+
         let mut entries = self.entries.borrow_mut();
 
         // Add a new entry if there's space.
         if entries
             .try_push(CacheEntry {
                 shape: shape.into(),
+                prototype_shape,
                 slot,
             })
             .is_err()
@@ -91,6 +111,23 @@ impl InlineCache {
             crate::verif::ic_stat(|s| s.megamorphic += 1);
             entries.clear();
         }
+    }
+
+    /// Checks that the prototype still has the shape it had when `entry` was created.
+    fn prototype_layout_unchanged(entry: &CacheEntry, shape: &Shape) -> bool {
+        let Some(cached) = &entry.prototype_shape else {
+            return true;
+        };
+        let Some(cached) = cached.upgrade() else {
+            return false;
+        };
+        let Some(prototype) = shape.prototype() else {
+            return false;
+        };
+        let Ok(prototype) = prototype.try_borrow() else {
+            return false;
+        };
+        prototype.shape().to_addr_usize() == cached.to_addr_usize()
     }
 
     /// Returns the cached `(Shape, Slot)` if a matching shape exists in the inline cache.
@@ -117,7 +154,13 @@ impl InlineCache {
         while i < entries.len() {
             if let Some(upgraded) = entries[i].shape.upgrade() {
                 if upgraded.to_addr_usize() == shape_addr {
-                    result = Some((upgraded, entries[i].slot));
+                    if Self::prototype_layout_unchanged(&entries[i], &upgraded) {
+                        result = Some((upgraded, entries[i].slot));
+                    } else {
+                        // The prototype was reshaped since the entry was created:
+                        // the slot index no longer describes it.
+                        entries.swap_remove(i);
+                    }
                     break;
                 }
                 i += 1;
